@@ -176,6 +176,8 @@ func main() {
 	replayHex := flag.String("replay", "", "run the listed monitors on this one input (hex) and exit 1 if any fails")
 	replayOps := flag.String("replay-ops", "", "iterator op sequence for a C13 replay")
 	stream := flag.String("stream", "E5", "PRNG stream name")
+	dumpRef := flag.String("dump-ref", "", "write the classification of every code point, by constant NAME, run-length encoded, into this directory and exit")
+	refDir := flag.String("ref", "/verif/refdata", "directory with the committed Unicode 15.0.0 reference classification")
 	printReps := flag.Bool("print-reps", false, "print one code point per class signature (comma separated) and exit")
 	specKinds := flag.String("spec-kinds", "fg,fw,fs,fl", "segmenters for the SPEC stage")
 	specStep := flag.Bool("spec-step", true, "also compare the matching Step/StepString flags with the spec")
@@ -190,6 +192,10 @@ func main() {
 	ci = scanClasses()
 	initGen()
 	thorough := *tier == "thorough"
+	if *dumpRef != "" {
+		dumpReference(*dumpRef)
+		return
+	}
 	if *printReps {
 		var xs []string
 		for _, r := range ci.oneRepPerSig() {
@@ -233,6 +239,7 @@ func main() {
 		return
 	}
 
+	startWatchdog(*outPath, 15*time.Second)
 	res := result{Seed: *seed, Tier: *tier, Amb: *amb, Distribution: newDist(), Signatures: len(ci.sigs)}
 	cs := &caseSource{seed: *seed, stream: *stream, n: *n, corpus: loadCorpus(*corpus), amb: *amb}
 	if *inputsFile != "" {
@@ -272,6 +279,8 @@ func main() {
 			res.Stages = append(res.Stages, stageE5(d, cs, res.Distribution, onlyMap, thorough))
 		case "E6":
 			res.Stages = append(res.Stages, stageE6(d, *seed, *n6, *amb))
+		case "REF":
+			res.Stages = append(res.Stages, stageRef(*refDir, algSet(*e2props)))
 		case "SPEC":
 			res.Stages = append(res.Stages, stageSpec(d, cs, strings.Split(*specKinds, ","), *specStep, thorough))
 		case "":
